@@ -106,7 +106,9 @@ pub fn features(scn: &ReadScn, cfg: &Cfg) -> BTreeSet<String> {
 }
 
 /// statistics and reach probes inferred from seam observations only
-pub fn record_stats(scn: &ReadScn, cfg: &Cfg, log: &RunLog, st: &mut Stats) {
+/// Returns the (input, event log) hash when the run was non-trivial; the caller inserts one hash
+/// per *scenario* into the `nontrivial` set.
+pub fn record_stats(scn: &ReadScn, cfg: &Cfg, log: &RunLog, st: &mut Stats) -> Option<u64> {
     st.count("step.source_reads", log.reads);
     st.count("step.source_seeks", log.seeks);
     st.count("step.policy_calls", log.all_grows.len() as u64);
@@ -197,14 +199,16 @@ pub fn record_stats(scn: &ReadScn, cfg: &Cfg, log: &RunLog, st: &mut Stats) {
     if log.eofs > 0 && scn.input.len() % cfg.cap == 0 && !scn.input.is_empty() {
         st.probe("probe.eof_with_full_buffer_candidate");
     }
-    if nontrivial {
-        st.set_insert("nontrivial", vcore::mix(hash_bytes(&scn.input), log.log_hash));
-    }
     st.count("step.serde_roundtrips", log.serde_checked);
     st.count("step.iterator_histories", log.iter_histories);
     st.count("step.iterator_steps", log.iter_steps);
     st.count("fault.sink_short_write", log.sink_short);
     st.count("fault.sink_interrupted", log.sink_intr);
+    if nontrivial {
+        Some(vcore::mix(hash_bytes(&scn.input), log.log_hash))
+    } else {
+        None
+    }
 }
 
 /// Seek targets per model item: positions of records, and for FASTQ of the invalid group
@@ -501,7 +505,9 @@ pub fn run_read(jo: &JudgeOpts, scn: &ReadScn, st: &mut Stats) -> RunResult {
     let m = model::build(scn.fmt, &scn.input);
     let cfg = &scn.cfgs[0];
     let log = drive(scn, cfg, &seek_targets(&m));
-    record_stats(scn, cfg, &log, st);
+    if let Some(h) = record_stats(scn, cfg, &log, st) {
+        st.set_insert("nontrivial", h);
+    }
     let mut v = judge(&m, scn, &log, jo);
     if !v.is_empty() {
         let f = features(scn, cfg);
@@ -520,10 +526,7 @@ impl Check for ReadCheck {
         "sim-io"
     }
     fn budget(&self, tier: Tier) -> u64 {
-        match (self.id, tier) {
-            (_, Tier::Quick) => 200_000,
-            (_, Tier::Thorough) => 6_000_000,
-        }
+        crate::budget_for(self.id(), tier)
     }
     fn generate(&self, rng: &Rng, tier: Tier, _idx: u64) -> Value {
         serde_json::to_value(gen_read_scn(self.id, rng, tier)).unwrap()
